@@ -27,7 +27,7 @@ C == INSTANCE Code128Enc
 D == INSTANCE DMEnc
 Q == INSTANCE QREnc
 PD == INSTANCE PDFDims
-S == INSTANCE AztecSel
+S == INSTANCE AztecSel WITH ExactFitOK <- TRUE
 
 Trace == ndJsonDeserialize("trace.ndjson")
 N == Len(Trace)
